@@ -192,6 +192,9 @@ class Run:
                     stage["crashes"] += 1
                 if rc == 3:
                     pass
+                elif rc == 4:
+                    # progress monitor: CPU burnt with no observable step (see ctx.rs)
+                    self.record_crash(scale, case, 0, name, "", kind="spin-no-progress")
                 elif sig == signal.SIGKILL:
                     self.inconc.append(dict(what="killed (SIGKILL, probably out of memory)", stage=name, shard=i, case=case))
                 else:
@@ -235,19 +238,20 @@ class Run:
             f"{stage['crashes']} process deaths, {stage['wall_s']}s")
         return stage
 
-    def record_crash(self, scale, case, sig, stage, stderr_tail=""):
+    def record_crash(self, scale, case, sig, stage, stderr_tail="", kind=None):
         inner = (case or {}).get("case") or {}
         prop = inner.get("prop", self.prop)
-        kind = "abort"
-        m = re.search(r"ERROR: AddressSanitizer: ([a-zA-Z-]+)", stderr_tail)
+        spin = kind is not None
+        kind = kind or "abort"
+        m = None if spin else re.search(r"ERROR: AddressSanitizer: ([a-zA-Z-]+)", stderr_tail)
         if m:
             kind = "asan-" + m.group(1)
-        elif "stack overflow" in stderr_tail:
+        elif not spin and "stack overflow" in stderr_tail:
             kind = "stack-overflow"
         if scale == "asan":
             scale = "prod"  # same constants, instrumented build
         rec = dict(k="viol", prop="C08" if self.prop != "C02" and prop != "C02" else "C02",
-                   sig=f"{kind}:signal{sig}:{prop}", scale=scale, scenario=inner.get("scenario"),
+                   sig=(f"{kind}:{prop}" if spin else f"{kind}:signal{sig}:{prop}"), scale=scale, scenario=inner.get("scenario"),
                    detail=dict(signal=sig, stage=stage, stderr_tail=stderr_tail[-1200:]), **{"from": prop})
         if self.prop == "C08":
             rec["prop"] = "C08"
